@@ -43,22 +43,36 @@ def build(sim_dir=SIM_DIR):
 
 
 def argv_of(job):
+    if job.get("cycle"):
+        return [str(job["K"]), str(job["D"]), ",".join(f"{n}{t}" for (t, n) in job["cycle"]), "both",
+                str(job["order"]), str(int(job["yield"])), str(int(job["main"])), str(int(job.get("battery", 0))), "cyc"]
     return [str(job["K"]), str(job["D"]), ",".join(str(n) for n in job["sizes"]), job["types"],
             str(job["order"]), str(int(job["yield"])), str(int(job["main"])), str(int(job.get("battery", 0)))]
 
 
+def nthreads(job):
+    return job["K"] + (1 if job["main"] else 0)
+
+
+def draws_of(job):
+    if job.get("cycle"):
+        return nthreads(job) * job["D"] * len(job["cycle"])
+    return nthreads(job) * job["D"] * (2 if job["types"] == "both" else 1) * len(job["sizes"])
+
+
 def words_of(job):
+    if job.get("cycle"):
+        return nthreads(job) * job["D"] * sum(1 if n <= 6 else 1 << (n - 6) for (_, n) in job["cycle"])
     w = sum(1 if n <= 6 else 1 << (n - 6) for n in job["sizes"])
     nt = 2 if job["types"] == "both" else 1
-    return (job["K"] + (1 if job["main"] else 0)) * job["D"] * nt * w
+    return nthreads(job) * job["D"] * nt * w
 
 
 def predicted_cost(job):
     k = job["K"] + (1 if job["main"] else 0)
     per = 0.0045 if k == 1 else 0.0045 + 0.0006 * k
     c = 1.5 + words_of(job) * per
-    nt = 2 if job["types"] == "both" else 1
-    c += k * job["D"] * nt * len(job["sizes"]) * 0.004  # per-draw overhead (alloc, stamps, checks)
+    c += draws_of(job) * 0.004  # per-draw overhead (alloc, stamps, checks)
     if job.get("battery"):
         c += 3.0 * k
     return c
@@ -112,7 +126,7 @@ def parse_log(text):
             f = line.split(" ")
             blocks = [] if f[7] == "-" else [int(x, 16) for x in f[7].split(".")]
             run["draws"].append({"t": int(f[1]), "typ": f[2], "n": int(f[3]), "s0": int(f[4]), "s1": int(f[5]),
-                                 "warn": int(f[6]), "blocks": blocks})
+                                 "warn": int(f[6]), "blocks": blocks, "slot": int(f[8]), "rep": int(f[9])})
         elif c == "B":
             f = line.split(" ")
             run["battery"].append((int(f[1]), int(f[2]), int(f[3]), f[4]))
